@@ -158,7 +158,9 @@ func (l *localExecutor) Reader(task *Task, partition int) sliceio.ReadCloser {
 	l.mu.Unlock()
 	if !ok {
 		return sliceio.ReaderWithCloseFunc{
-			Reader:    sliceio.ErrReader(fmt.Errorf("no data for %v", task)),
+			// Format the task's name, not the task: (*Task).String reads
+			// the task's state, which may be changing concurrently.
+			Reader:    sliceio.ErrReader(fmt.Errorf("no data for task %v", task.Name)),
 			CloseFunc: func() error { return nil },
 		}
 	}
